@@ -179,6 +179,7 @@ def scenario_c14(i, mech, acc, tgt, entry="call"):
         body.append("t := mk@()")
         if tgt == "child":
             body.append("o.p = t")
+    body.append("_ = t")
     body += pre
     body += share
     if tgt == "latechild":
